@@ -70,13 +70,18 @@ def build(case, tmp):
     if fmt == 'v3':
         tr.weather = weather_ramps(rng)
         wx = {V3_WEATHER[k]: [(-1.0, a), (case['T'] + 1.0, b)] for k, (a, b) in tr.weather.items()}
+        v3kw = {}
+        if case.get('start_times'):
+            # non-centroid timestamps, optionally with a CBF dump period shorter than the L0 dump period
+            v3kw = dict(centroid=False, cbf_int_time=case.get('cbf_int_time'))
         syn = h5synth.make_v3(path, rng, T=case['T'], F=case['F'], n_ants=case['n_ants'], shuffle_bls=True,
-                              dup_final_dump=case['dup'], sideband=case['sideband'], extra_sensors=wx,
+                              dup_final_dump=case['dup'], sideband=case['sideband'], extra_sensors=wx, **v3kw,
                               open_kwargs={'keepdims': case['keepdims']})
         tr.keepdims = case['keepdims']
     elif fmt == 'v2':
         syn = h5synth.make_v2(path, rng, T=case['T'], F=case['F'], n_ants=case['n_ants'], shuffle_bls=True,
-                              dup_final_dump=case['dup'], open_kwargs={'keepdims': case['keepdims']})
+                              dup_final_dump=case['dup'], open_kwargs={'keepdims': case['keepdims']},
+                              lost=case.get('lost') or None)
         tr.keepdims = case['keepdims']
     else:
         n = max(1, case['T'] // 3)
@@ -126,7 +131,11 @@ def gen_case(rng, fmt=None):
     T, F = rng.randint(2, 9), rng.randint(1, 6)
     case = dict(fmt=fmt, T=T, F=F, n_ants=rng.randint(1, 3), seed=rng.randrange(2 ** 31),
                 dup=rng.random() < 0.4, sideband=rng.choice([1, 1, -1]), keepdims=rng.random() < 0.4,
-                via_rdb=rng.random() < 0.35)
+                via_rdb=rng.random() < 0.35, start_times=rng.random() < 0.3,
+                cbf_int_time=rng.choice([None, 0.5, 0.25]))
+    if fmt == 'v2' and T >= 5 and rng.random() < 0.35:
+        # dumps that were never written: irregular timestamps (labels and sensors must follow the real times)
+        case['lost'] = sorted(rng.sample(range(1, T - 1), rng.randint(1, min(2, T - 3))))
     n_ants = case['n_ants'] if fmt != 'v1' else min(case['n_ants'], 2)
     B = {1: 4, 2: 12, 3: 24}[n_ants] if fmt == 'v4' else None
     case['ops'] = []
@@ -310,6 +319,9 @@ def drive(ctx, case, d, tr):
             continue
         sels_src = ixgen.parse_sels(rep)       # source coordinates per axis
         k2py = tuple(ixgen.to_py(ix, as_array=rng.random() < 0.5) for ix in k2)
+        # integer indices also arrive as numpy integer scalars (np.argmax, iterating over d.dumps, ...)
+        k2py = tuple(np.int64(v) if (isinstance(v, int) and not isinstance(v, bool) and rng.random() < 0.4) else v
+                     for v in k2py)
         if len(k2py) == 1 and rng.random() < 0.5:
             k2py = k2py[0]
         try:
